@@ -46,6 +46,8 @@ ASSUMPTIONS = [
     "testament classes compared: Testament and StrictTestament always, StrictTestament3 (root included) only when source and target both hold rich-root data (a rich-root upgrade synthesises root history)",
     "per-file parents are compared source vs target for every text key the source has; root texts synthesised by a rich-root upgrade are judged by check() only",
     "an operation that fails under an injected error must leave the target's revision set either as before or - when the error struck after the write group was committed (e.g. while updating the branch tip) - complete; in both cases everything listed must be readable, locks are broken as after a failed process, and the retry must succeed",
+    "in 40% of the runs the source is a record-by-record replica of the natively built history WITHOUT one or two merged-in revisions (right-hand parents only): they are ghosts in the source, yet the file versions they introduced and later trees still carry are present there; every text version a target inventory refers to and the source holds must then be in the target",
+    "sources with ghost-introduced texts are not fetched into plain knit targets (a knit target cannot park a text delta whose basis lies outside the fetched set, which a ghost in the middle of the per-file ancestry makes possible; fetch then raises RevisionNotPresent on the unchanged tree - legacy format, reported separately)",
     "signatures: a revision fetched by any route must carry the same signature text as in the source",
     "no error injection for knit targets (no write groups, no atomicity claim); the target's check() is required to be clean only when the source's check() is clean (knit sources record per-file parents with revision-graph heads, which check() rejects after a file id was deleted and re-added)",
     "stacked targets: completeness is judged on the stacked repository together with its fallback; in addition the stacked repository alone must hold the parent inventories and new texts of its own revisions (C08's local statement)",
@@ -119,7 +121,8 @@ def generate(rng, tier):
         sfmt, tfmt = rng.choice(FMTS), rng.choice(FMTS)
         if allowed(sfmt, tfmt):
             break
-    g = DagGen(rng, ghosts=rng.choice([0.0, 0.15, 0.3]))
+    ghost_texts = rng.random() < 0.4
+    g = DagGen(rng, ghosts=rng.choice([0.0, 0.15, 0.3]), side_merges=0.25 if ghost_texts else 0.0)
     specs = g.run(rng.randint(5, 16), merge_p=rng.choice([0.25, 0.4]))
     ids = [s["id"] for s in specs]
     tips = sorted(g.mh.tips.values())
@@ -150,7 +153,24 @@ def generate(rng, tier):
         "ids": rng.random() < 0.15,
         "pack_src": rng.random() < 0.3,
         "pack_tgt": rng.random() < 0.3,
+        # the source holds texts whose introducing revision is absent from it (a ghost):
+        # it is a replica of the natively built history minus some merged-in revisions
+        "ghost_texts": ghost_texts,
+        "demote": rng.randrange(1 << 20),
     }
+    if plan["ghost_texts"] and plan["tfmt"] == "knit":
+        # plain knit repositories cannot park a text delta whose basis is outside the fetched
+        # set (possible once a ghost cuts the per-file ancestry); legacy format, reported
+        plan["tfmt"] = tfmt = "pack-0.92" if not RICH[sfmt] else "rich-root-pack"
+        plan["stacked"] = False
+    if plan["ghost_texts"] and rng.random() < 0.5:
+        # same-serializer pack pairs take the dedicated stream sources (KnitPackStreamSource,
+        # GroupCHKStreamSource), which work from inventory contents
+        sfmt, tfmt = rng.choice([("pack-0.92", "pack-0.92"), ("pack-0.92", "1.9"), ("1.9", "pack-0.92"), ("1.9", "1.9"), ("rich-root-pack", "rich-root-pack"), ("rich-root-pack", "1.9-rich-root"), ("1.9-rich-root", "rich-root-pack"), ("1.9-rich-root", "1.9-rich-root"), ("2a", "2a")])
+        plan["sfmt"], plan["tfmt"] = sfmt, tfmt
+        plan["stacked"] = plan["stacked"] and tfmt in STACKABLE
+        plan["via"] = None
+        plan["ids"] = False
     if rng.random() < 0.35:
         plan["faults"] = [{"kind": "err_before", "at": rng.randint(1, 45), "count": "mut", "err": rng.choice(["transport", "enospc", "permission", "nosuchfile"])}]
     return plan
@@ -180,6 +200,49 @@ def text_parents(repo, mh, rids):
     return keys, repo.texts.get_parent_map(keys)
 
 
+def choose_dropped(mh, x, seed):
+    """Merged-in revisions (right-hand parents only, never a first parent, not x) to leave
+    out of the source; those from which a child inherits a file version come first."""
+    rng = random.Random(seed)
+    first = {mh.revs[r]["parents"][0] for r in mh.order if mh.revs[r]["parents"]}
+    right = {p for r in mh.order for p in mh.revs[r]["parents"][1:] if p in mh.revs}
+    cand = sorted(r for r in right if r not in first and r != x)
+    strong = [g for g in cand if any(v == g for r in mh.order if g in mh.revs[r]["parents"] for v in mh.ver[r].values())]
+    pool = strong or cand
+    if not pool:
+        return []
+    out = [rng.choice(pool)]
+    rest = [c for c in cand if c not in out]
+    if rest and rng.random() < 0.3:
+        out.append(rng.choice(rest))
+    return sorted(out)
+
+
+def replicate_without(full, src, order, drop):
+    """Copy every revision of `order` except `drop` from `full` into `src` record by
+    record (texts its tree refers to, inventory, revision, signature) - the dropped
+    revisions become ghosts in `src`, while the texts they introduced and that later
+    trees still carry are present, as in any repository that merged a revision it does
+    not hold."""
+    with full.lock_read(), src.lock_write():
+        src.start_write_group()
+        try:
+            for rid in order:
+                if rid in drop:
+                    continue
+                r = rid.encode()
+                tree = full.revision_tree(r)
+                keys = {(ie.file_id, ie.revision) for _path, ie in tree.iter_entries_by_dir()}
+                keys -= set(src.texts.get_parent_map(keys))
+                needed = sorted(full.texts.get_parent_map(keys))
+                src.texts.insert_record_stream(full.texts.get_record_stream(needed, "topological", True))
+                src.add_revision(r, full.get_revision(r), full.get_inventory(r))
+            src.commit_write_group()
+        except BaseException:  # noqa: B036
+            src.abort_write_group()
+            raise
+
+
 def execute(sim, plan, _scratch=None):
     from breezy import debug, errors
 
@@ -194,7 +257,8 @@ def execute(sim, plan, _scratch=None):
     url_s = world.new_store("src") + "S/"
     url_t = world.new_store("tgt") + "T/"
     # ---- source
-    db = storesim.DagBuilder(url_s, sfmt, "shared", scratch=_scratch, tag="s")
+    build_url = world.new_store("full") + "F/" if plan.get("ghost_texts") else url_s
+    db = storesim.DagBuilder(build_url, sfmt, "shared", scratch=_scratch, tag="s")
     done = []
     tips = {}
     for s in specs:
@@ -211,6 +275,37 @@ def execute(sim, plan, _scratch=None):
     if plan["x"] not in mh.revs:
         return  # shrunk beyond use
     x = plan["x"]
+    dropped = []
+    if plan.get("ghost_texts"):
+        dropped = choose_dropped(mh, x, plan["demote"])
+        # what a repository that never received the dropped revisions would hold: the
+        # revisions reachable from the heads without passing through a dropped one
+        children = {p for d in done for p in d["parents"]}
+        reach = set()
+        todo = [d["id"] for d in done if d["id"] not in children and d["id"] not in dropped] + [x]
+        while todo:
+            r = todo.pop()
+            if r in reach or r in dropped or r not in mh.revs:
+                continue
+            reach.add(r)
+            todo.extend(mh.revs[r]["parents"])
+        absent = set(mh.revs) - reach
+        storesim.make_shared_repo(url_s, sfmt)
+        replicate_without(storesim.open_repo(build_url), storesim.open_repo(url_s), mh.order, absent)
+        dropped = sorted(absent)
+        kept = []
+        for d in done:
+            if d["id"] in absent:
+                continue
+            gone = [p for p in d["parents"] if p in dropped]
+            kept.append(dict(d, ghosts=list(d.get("ghosts", [])) + gone) if gone else d)
+        inherited = sum(1 for d in kept for f in d["tree"] if mh.ver[d["id"]][f] in dropped)
+        mh = replay_dag(kept)
+        sim.event("source-replica-without", ",".join(dropped) or "-", inherited)
+        if dropped:
+            sim.probe("source_lacks_merged_revision")
+        if inherited:
+            sim.probe("source_text_introduced_by_absent_revision", inherited)
     srepo = storesim.open_repo(url_s)
     signed = [r for r in plan["signed"] if r in mh.revs]
     if signed:
@@ -366,6 +461,13 @@ def execute(sim, plan, _scratch=None):
             for key in sorted(ts):
                 if ts[key] != tt[key]:
                     sim.fail("testament", ["testament", conf, tag, key[1]], f"{tag}: testament {key[1]} of {key[0]} differs: source {ts[key]!r} target {tt[key]!r}")
+            for r in order_:
+                refs = {(ie.file_id, ie.revision) for _path, ie in t.revision_tree(r.encode()).iter_entries_by_dir() if ie.parent_id is not None}
+                in_src = set(s.texts.get_parent_map(refs))
+                in_tgt = set(t.texts.get_parent_map(refs))
+                lost = sorted(k for k in refs if k in in_src and k not in in_tgt)
+                if lost:
+                    sim.fail("referenced_text", ["referenced_text", conf, tag, "ghost-introduced" if any(k[1].decode() not in mh.revs for k in lost) else "other"], f"{tag}: the target's inventory of {r} refers to text versions {lost[:4]} that the source holds and the target lacks")
             keys, sp = text_parents(s, mh, order_)
             tp = t.texts.get_parent_map(keys)
             for k in keys:
